@@ -165,8 +165,12 @@ CHECKS["C04"]["quick"] = _FN_Q + [_run(34, 0, 2, 2), _RUN_RR] + _timer([1], [1, 
 CHECKS["C04"]["thorough"] = (_only(_FN_T, {"VerifQuorumArith", "VerifJustRoundChange", "VerifJustPrePrepare", "VerifClassify"}, typ=[1, 4])
                              + [_run(34, 0, 2, 2), _RUN_RR, _RUN_TT, _RUN_TRRR, _RUN_ITR, _RUN_PTP, _RUN_N6]
                              + _timer([1], list(range(1, 14)), [1, 2, 3, 8], [12000, 4000]) + _timer([0, 2], [1, 2, 9, 12], [1, 2, 3, 8], [12000]))
+_C04T = [{"pkg": "./core/consensus/qbft", "harness": "VerifC04Transport", "params": {"out": [1, 3, 4]},
+          "redirects": ["github.com/obolnetwork/charon/app/k1util.Sign=.vSign", "github.com/obolnetwork/charon/app/k1util.Recover=.vRecover"]}]
+CHECKS["C04"]["quick"] = CHECKS["C04"]["quick"] + _C04T
+CHECKS["C04"]["thorough"] = CHECKS["C04"]["thorough"] + [dict(_C04T[0], cross=True)]
 CHECKS["C04"]["bounds"] = dict(CHECKS["C02"]["bounds"])
-CHECKS["C04"]["bounds"]["quick"] = CHECKS["C04"]["bounds"]["quick"].split("; Run-level")[0] + "; ROUND-CHANGE completeness: every justification made of a quorum OR MORE distinct-source PREPARE(pr,pv) (what Run attaches) is accepted; Run-level (n=4): timer,ROUND-CHANGE and ROUND-CHANGE,ROUND-CHANGE (f+1 jump) with symbolic contents, including L12 (every ROUND-CHANGE the real Run sends passes the real isJustifiedRoundChange); round timers: for 7 duty types, rounds 1-2, the eager double-linear timer's first deadline is exactly round seconds after the instant the SCHEDULER starts that duty type (core/scheduler slotOffsets), a second timer of the same round ends one round duration later; increasing and linear timers ask for their nominal duration (genesis, slot, call instants symbolic)"
+CHECKS["C04"]["bounds"]["quick"] = CHECKS["C04"]["bounds"]["quick"].split("; Run-level")[0] + "; ROUND-CHANGE completeness: every justification made of a quorum OR MORE distinct-source PREPARE(pr,pv) (what Run attaches) is accepted; Run-level (n=4): timer,ROUND-CHANGE and ROUND-CHANGE,ROUND-CHANGE (f+1 jump) with symbolic contents, including L12 (every ROUND-CHANGE the real Run sends passes the real isJustifiedRoundChange); round timers: for 7 duty types, rounds 1-2, the eager double-linear timer's first deadline is exactly round seconds after the instant the SCHEDULER starts that duty type (core/scheduler slotOffsets), a second timer of the same round ends one round duration later; increasing and linear timers ask for their nominal duration (genesis, slot, call instants symbolic); transport (core/consensus/qbft): after one received message of symbolic type (value referred to as value or as prepared value) the member's own PRE-PREPARE / COMMIT / ROUND-CHANGE referring to that value is sent, with the value attached"
 CHECKS["C04"]["bounds"]["thorough"] = "n in 3..7 for ROUND-CHANGE / PRE-PREPARE justification; classify on PRE-PREPARE / ROUND-CHANGE buffers; Run-level T,T | T,RC,RC,RC (the process leads round 2) | I,T,RC | PP,T,PP and the n=6 sequence ROUND-CHANGE(4 nested PREPAREs),PREPARE,timer in which the process prepares with more than a quorum; timers for all 13 duty types, rounds 1,2,3,8, slot durations 12s and 4s"
 CHECKS["C04"]["pkg"] = _QB
 CHECKS["C04"]["assumptions"] = list(_qbft_assumptions) + ["round timers: harness clock (Now symbolic, NewTimer records the requested duration); feature flags at their defaults (ProposalTimeout off)"]
